@@ -105,13 +105,24 @@ fn builder_case(s: &mut Sink, r: &mut Rng, c: &Case) {
     let ring = *r.pick(&[RingTag::Z64, RingTag::Q, RingTag::F2, RingTag::F3]);
     let req = format!("kh {} {} {} {} 0 {}", ring.coeff(), h, t, red as u8, link_txt(&l));
     let l2 = l.clone();
+    let xs2 = xs.clone();
     let got = guard_timeout(120, move || match ring {
         RingTag::Q => kh_by_builder::<Ratio<i64>>(&l2, xs, ad, ae, end, &Ratio::from(h), &Ratio::from(t), red, &|_| BigInt::from(0)),
         RingTag::F2 => kh_by_builder::<FF2>(&l2, xs, ad, ae, end, &FF2::from(h), &FF2::from(t), red, &|_| BigInt::from(0)),
         RingTag::F3 => kh_by_builder::<FF<3>>(&l2, xs, ad, ae, end, &FF::<3>::new(h as i32), &FF::<3>::new(t as i32), red, &|_| BigInt::from(0)),
         _ => kh_by_builder::<i64>(&l2, xs, ad, ae, end, &h, &t, red, &|x| BigInt::from(*x)),
     });
-    let reply = match got { Some(Some(tbl)) => format!("signs={} {}", signs_txt(&l), tbl), None => "timeout".into(), _ => "panic".into() };
+    let mut reply: String = match got { Some(Some(tbl)) => format!("signs={} {}", signs_txt(&l), tbl), None => "timeout".into(), _ => "panic".into() };
+    if reply == "panic" && matches!(ring, RingTag::Z64 | RingTag::Q) {
+        // fixed-width coefficients may overflow (overflow checks are on): the property is about Z and Q, so repeat the SAME route in
+        // arbitrary precision; only if that panics as well (or gives a table the specification rejects) is it a violation
+        let (l3, xs3) = (l.clone(), xs2.clone());
+        let again = guard_timeout(240, move || match ring {
+            RingTag::Q => kh_by_builder::<Ratio<BigInt>>(&l3, xs3, ad, ae, end, &Ratio::from(BigInt::from(h)), &Ratio::from(BigInt::from(t)), red, &|_| BigInt::from(0)),
+            _ => kh_by_builder::<BigInt>(&l3, xs3, ad, ae, end, &BigInt::from(h), &BigInt::from(t), red, &|x| x.clone()),
+        });
+        if let Some(Some(tbl)) = again { reply = format!("signs={} {}", signs_txt(&l), tbl); s.count("machine-overflow.repeated-in-arbitrary-precision"); }
+    }
     s.oracle(!(reply == "timeout" || reply == "panic"), "the builder's public switches (deferred delooping / elimination, any crossing order) terminate without panic on a valid diagram",
         &format!("{} [{} auto_deloop={} auto_elim={} eliminate_all_at_end={}]", req, c.name, ad, ae, end), &reply);
     s.count("route.builder-switches");
@@ -130,13 +141,23 @@ fn halves_case(s: &mut Sink, r: &mut Rng, c: &Case) {
     let ring = *r.pick(&[RingTag::Z64, RingTag::Z64, RingTag::Q, RingTag::F3]);
     let req = format!("kh {} {} {} 0 {} {}", ring.coeff(), h, t, bigr as u8, link_txt(&l));
     let mut r2 = r.fork();
+    let mut r3 = r2.clone();
     let (l2, o2) = (l.clone(), order.clone());
     let got = guard_timeout(120, move || match ring {
         RingTag::Q => kh_by_halves::<Ratio<i64>>(&l2, &o2, split, &Ratio::from(h), &Ratio::from(t), bigr, &|_| BigInt::from(0), &mut r2),
         RingTag::F3 => kh_by_halves::<FF<3>>(&l2, &o2, split, &FF::<3>::new(h as i32), &FF::<3>::new(t as i32), bigr, &|_| BigInt::from(0), &mut r2),
         _ => kh_by_halves::<i64>(&l2, &o2, split, &h, &t, bigr, &|x| BigInt::from(*x), &mut r2),
     });
-    let reply = match got { Some(Some(tbl)) => format!("signs={} {}", signs_txt(&l), tbl), None => "timeout".into(), _ => "panic".into() };
+    let mut reply: String = match got { Some(Some(tbl)) => format!("signs={} {}", signs_txt(&l), tbl), None => "timeout".into(), _ => "panic".into() };
+    if reply == "panic" && matches!(ring, RingTag::Z64 | RingTag::Q) {
+        // see builder_case: the same route and the same random choices, in arbitrary precision
+        let (l3, o3) = (l.clone(), order.clone());
+        let again = guard_timeout(240, move || match ring {
+            RingTag::Q => kh_by_halves::<Ratio<BigInt>>(&l3, &o3, split, &Ratio::from(BigInt::from(h)), &Ratio::from(BigInt::from(t)), bigr, &|_| BigInt::from(0), &mut r3),
+            _ => kh_by_halves::<BigInt>(&l3, &o3, split, &BigInt::from(h), &BigInt::from(t), bigr, &|x| x.clone(), &mut r3),
+        });
+        if let Some(Some(tbl)) = again { reply = format!("signs={} {}", signs_txt(&l), tbl); s.count("machine-overflow.repeated-in-arbitrary-precision"); }
+    }
     s.oracle(!(reply == "timeout" || reply == "panic"), "composing two sub-tangle complexes (divide and conquer) terminates without panic on a valid diagram",
         &format!("{} [{} order={:?} split={}]", req, c.name, order, split), &reply);
     s.count("route.divide-and-conquer");
@@ -186,11 +207,20 @@ fn one(s: &mut Sink, c: &Case, ring: RingTag, h: i64, t: i64, red: bool, bigr: b
             s.count("rebuilds");
         }
     }
-    let reply = match (signs, got) {
+    let mut reply = match (signs.clone(), got) {
         (Some(sg), Some(Some(tbl))) => format!("signs={} {}", sg, tbl),
         (_, None) => "timeout".to_string(),
         _ => "panic".to_string(),
     };
+    if reply == "panic" && signs.is_some() && matches!(ring, RingTag::Z64 | RingTag::Q) {
+        // fixed-width overflow (checked arithmetic): repeat in arbitrary precision — Z as BigInt, Q as Ratio<BigInt>
+        let l4 = l.clone();
+        let again = guard_timeout(240, move || match ring {
+            RingTag::Q => kh_table::<Ratio<BigInt>>(&l4, &Ratio::from(BigInt::from(h)), &Ratio::from(BigInt::from(t)), red, bigr, &|_| BigInt::from(0)),
+            _ => run_kh(&l4, RingTag::ZBig, h, t, red, bigr),
+        });
+        if let Some(Some(tbl)) = again { reply = format!("signs={} {}", signs.clone().unwrap(), tbl); s.count("machine-overflow.repeated-in-arbitrary-precision"); }
+    }
     // the library must terminate without panicking on every valid diagram
     s.oracle(!(reply == "timeout" || reply == "panic"), "the library computes Kh of a valid diagram without panic/hang",
         &format!("{} [{} ring={:?} threads={}]", req, c.name, ring, threads), &reply);
@@ -301,6 +331,20 @@ fn main() {
         s.count(&format!("diagram.{}", c.name.split(|ch: char| !ch.is_ascii_alphabetic()).next().unwrap_or("other")));
         guarded_case(&mut s, &c.name, |s| variants(s, &mut r, c, thorough));
         if n <= (if thorough { 8 } else { 6 }) { for _ in 0..(if thorough { 4 } else { 2 }) { guarded_case(&mut s, &c.name, |s| halves_case(s, &mut r, c)); guarded_case(&mut s, &c.name, |s| builder_case(s, &mut r, c)); } }
+    }
+    // knots whose complex over Q has pivots other than ±1 (7_7 and several 8-crossing knots): Q only, h = t = 0 and one other pair,
+    // each built through `one` (which rebuilds twice and compares) — the place where non-self-inverse units matter
+    {
+        let mut qs = vec!["7_7", "8_11", "8_13", "8_14", "8_15", "8_17", "8_18", "8_21"];
+        if !thorough { r.shuffle(&mut qs); qs.truncate(4); }
+        for n in qs {
+            let Some(l) = load(n) else { continue };
+            let c = mk(n, l);
+            guarded_case(&mut s, n, |s| one(s, &c, RingTag::Q, 0, 0, false, true, 0));
+            let (h, t) = *r.pick(&[(1i64, 0i64), (0, 1), (2, 3)]);
+            guarded_case(&mut s, n, |s| one(s, &c, RingTag::Q, h, t, false, false, 0));
+            s.count("q-stress");
+        }
     }
     s.finish();
 }
